@@ -4,6 +4,7 @@ import LdkModel.Props.C01Fee
 import LdkModel.Props.C01Close
 import LdkModel.Props.C01Send
 import LdkModel.Props.C01Persist
+import LdkModel.Props.C01Recv
 import LdkModel.Props.ChanProto
 #print axioms Ldk.C01.commit_outputs_partition
 #print axioms Ldk.C01.outputs_plus_fee_le_channel_value
@@ -66,6 +67,7 @@ import LdkModel.Props.ChanProto
 #print axioms Ldk.C01Persist.reestablish_generated_eq
 #print axioms Ldk.C01Persist.reestablish_generated_on_runs
 #print axioms Ldk.C01Persist.fee_drop_is_necessary
+#print axioms Ldk.C01Recv.sender_limit_admitted_by_receiver_partial
 #print axioms Ldk.ChanProto.counters_step_by_one
 #print axioms Ldk.ChanProto.counters
 #print axioms Ldk.ChanProto.at_most_one_outstanding
